@@ -22,6 +22,7 @@ NUMERIC = ('SDevice', 'TDevice')
 CLASSES = ['Device', 'PVDevice', 'CDevice', 'CDevice2', 'CDevice2', 'IDevice', 'IDevice', 'IDevice2', 'GDevice', 'GDevice', 'SDevice', 'TDevice',
            'ADevice', 'ADevice', 'ADevice', 'ADevice']
 KINK_MARGIN = Fraction(1, 8)
+P_SET_SAME = 0.04   # share of hess -> setter -> hess histories on the classes whose cost object is built at construction
 P_SET = 0.04      # share of hess -> setter -> hess histories (storage)
 P_FNX = 0.3       # share of cases from vk/gen_fnx.py (function classes outside the Lean `Fn` embedding: oracle only)
 
@@ -56,6 +57,8 @@ def idev_bs(d):
 def convex_case(case):
   """the description lies in the documented-convex family (PSD is then required)."""
   d = case['dev']
+  if case.get('set_same'):
+    return False
   if case.get('fnx'):
     return gen_fnx.convex(d['prm']['fx'], [F(x) for x in d['lb']], [F(x) for x in d['hb']])
   if d['cls'] == 'ADevice':
@@ -153,6 +156,23 @@ class C14(Prop):
         case['ij'] = [[i, j] for i in range(n) for j in range(i, n)]
         out.append(case)
         continue
+      if rng.random() < P_SET_SAME:
+        # hess -> setter -> hess on the classes that keep the cost object built at construction (IDevice2, IDevice, CDevice2): whatever
+        # parameters cost / deriv then describe (their staleness is C11's open finding), hess must be the second derivative of THAT cost
+        # on the SAME instance.  Oracle only (no model side: which parameters apply is exactly what is open).
+        cls = rng.choice(['IDevice2', 'IDevice2', 'IDevice', 'CDevice2'])
+        case = leaf_case(rng, tier, [cls])
+        pr = case['dev']['prm']; n = case['dev']['n']
+        half = lambda v: [fs(F(x)/2) for x in v] if isinstance(v, list) else fs(F(v)/2)
+        plus = lambda v, c: [fs(F(x) + c) for x in v] if isinstance(v, list) else fs(F(v) + c)
+        if cls in ('IDevice2', 'CDevice2'):
+          st = rng.choice([{'p_h': half(pr['p_h'])}, {'p_l': plus(pr['p_l'], -1)}, {'p_l': plus(pr['p_l'], -2), 'p_h': half(pr['p_h'])}])
+        else:
+          st = rng.choice([{'c': plus(pr['c'], 1)}, {'a': half(pr['a'])}, {'b': plus(pr['b'], 1)}])
+        case['set_same'] = st
+        case['ij'] = [[i, j] for i in range(n) for j in range(i, n)] if n <= 5 else [[i, i] for i in rng.sample(range(n), 4)] + [sorted(rng.sample(range(n), 2)) for _ in range(6)]
+        out.append(case)
+        continue
       cls = rng.choice(CLASSES)
       kw = {'n': rng.randint(1, 4)} if cls in NUMERIC else {}
       case = leaf_case(rng, tier, [cls], **kw)
@@ -216,6 +236,12 @@ class C14(Prop):
     object caches is warm), then the parameters are assigned through the public setters."""
     if case.get('fnx'):
       return gen_fnx.build_adevice(case['dev'])
+    if case.get('set_same'):
+      dev = build.build_leaf(case['dev'])
+      dev.hess(build.arr(case['s']).astype(float), 0)
+      for k, v in case['set_same'].items():
+        setattr(dev, k, build.fv(v))
+      return dev
     if case.get('set'):
       dev = build.build_leaf(case['_dev0'])
       dev.hess(build.arr(case['s']).astype(float), 0)
@@ -236,8 +262,8 @@ class C14(Prop):
   def ops(self, case):
     case = self.effective(case)
     d = case['dev']
-    if case.get('fnx'):
-      return []          # no model side: the Lean `Fn` embedding has no constructor for these classes
+    if case.get('fnx') or case.get('set_same'):
+      return []          # no model side: the Lean `Fn` embedding has no constructor for these classes / which parameters apply is open
     if not self.t2_able(d):
       return []
     dev = self.build_dev(case)
@@ -260,8 +286,8 @@ class C14(Prop):
   def oracle(self, case):
     n_ = np()
     case = self.effective(case)
-    if case.get('set'):
-      self.bump('hess -> setter -> hess cases')
+    if case.get('set') or case.get('set_same'):
+      self.bump('hess -> setter -> hess cases' + (' (same-instance consistency only)' if case.get('set_same') else ''))
     d = case['dev']; cls = d['cls']; n = d['n']
     fnx = bool(case.get('fnx'))
     if fnx:
@@ -269,7 +295,8 @@ class C14(Prop):
         self.bump('fnx kind ' + k)
     dev = self.build_dev(case)
     s = build.arr(case['s']).astype(float); p = build.price(case['p'])
-    ctx = lambda: 's=%s p=%s prm=%s bounds=%s/%s cbs=%s' % (case['s'], case['p'], json.dumps(strip_private(d['prm']))[:400], d['lb'], d['hb'], d.get('cbs'))
+    ctx = lambda: 's=%s p=%s prm=%s bounds=%s/%s cbs=%s' % (case['s'], case['p'], json.dumps(strip_private(d['prm']))[:400], d['lb'], d['hb'], d.get('cbs')) + (
+      ' [history: hess, then %s assigned through the setters, then hess on the same instance]' % (case.get('set_same') or case.get('set')) if (case.get('set_same') or case.get('set')) else '')
     fx = {'fn': '+'.join(sorted(gen_fnx.kinds(d['prm']['fx']) & {'x2d', 'poly1d', 'inner', 'abcx', 'entropy', 'tvar', 'cobb', 'sum', 'base'})),
           'tvar': 'tvar' in gen_fnx.kinds(d['prm']['fx'])} if fnx else {}
     fail = lambda kind, msg, **kw: [{'key': dict(dict({'cls': cls, 'kind': kind}, **fx), **kw), 'detail': '%s: %s; %s' % (cls, msg, ctx())}]
